@@ -280,5 +280,8 @@ def run(repo: Repo, rep: Report) -> None:
         cross_check(rep, "single cycle / single path", "_active_edges_single_cycle", list(XITEMS), total_budget_s=10.0, what="(edge flags, passed flags)")
     XITEMS.clear()
     frame_form(repo, rep)
+    from .encodings import standard_history
+    standard_history(repo, rep, "active_edges_single_cycle", "edges")
+    standard_history(repo, rep, "active_edges_single_path", "edges", grid=False, prim=True)  # the only implemented route
     c14.check(repo, rep)
     rep.assume("reference schemas are exact (DESIGN.md C06); the frame->graph conversion is the one C14 decides; native connectivity is the external solver's")
